@@ -1,0 +1,51 @@
+// Copyright 2025 SCION Association
+//
+// Licensed under the Apache License, Version 2.0 (the "License");
+// you may not use this file except in compliance with the License.
+// You may obtain a copy of the License at
+//
+//   http://www.apache.org/licenses/LICENSE-2.0
+//
+// Unless required by applicable law or agreed to in writing, software
+// distributed under the License is distributed on an "AS IS" BASIS,
+// WITHOUT WARRANTIES OR CONDITIONS OF ANY KIND, either express or implied.
+// See the License for the specific language governing permissions and
+// limitations under the License.
+
+//go:build verif
+
+package bfd
+
+import "github.com/gopacket/gopacket/layers"
+
+// verifJitterSource, when set, replaces the (unseedable) global math/rand/v2 source of the
+// default interval generator.
+var verifJitterSource func(n int) int
+
+func verifJitter(n int) (int, bool) {
+	if f := verifJitterSource; f != nil {
+		return f(n), true
+	}
+	return 0, false
+}
+
+// VerifSetJitterSource installs (or, with nil, removes) the jitter source used by sessions that
+// have no explicit interval generator.
+func VerifSetJitterSource(f func(n int) int) { verifJitterSource = f }
+
+// Events a simulation can feed to VerifTransition in addition to the four received states.
+const (
+	VerifEventTimer   = int(eventTimer)
+	VerifEventAdminUp = int(eventAdminUp)
+)
+
+// VerifTransition exposes the state-machine transition function for model extraction. States and
+// received-state events use the layers.BFDState numbering.
+func VerifTransition(curr layers.BFDState, ev int) layers.BFDState {
+	return layers.BFDState(transition(state(curr), event(ev)))
+}
+
+// VerifLocalState returns the current local session state.
+func (s *Session) VerifLocalState() layers.BFDState {
+	return layers.BFDState(s.getLocalState())
+}
